@@ -143,9 +143,14 @@ def worker(job):
     try:
         rng = Rng(derive(seed, 'C11mw', pi))
         runs = [gen_run(rng.fork('r', i), f'm{pi}-{i}') for i in range(n)]
-        results = _exec(workdir, runs)
         seen = set()
-        for run, res in zip(runs, results):
+
+        def executed():
+            for start in range(0, len(runs), 500):
+                part = runs[start:start + 500]
+                yield from zip(part, _exec(workdir, part))
+
+        for run, res in executed():
             vs = judge(run, res)
             summary['runs'] += 1
             summary['steps'] += int(res.end.get('steps', 0))
